@@ -83,6 +83,14 @@ def gen_cases(tier, seed):
     add("undef", "br nowhere\nhalt\n"); add("undef", "ld r0 Nowhere\nnowhere halt\n")
     add("dup", "a halt\na halt\n"); add("dup", "a halt\nbr a\na .fill #1\n"); add("case-differs", "a halt\nA halt\nbr a\nbr A\n")
     add("dup", "a\n.break\nhalt\na halt\n")
+    # a second definition that gets the SAME line number (the line counter does not advance on .orig/.break)
+    for sep in ("\n", " "):
+        add("dup-same-line", f"main .orig x3000{sep}main add r0 r0 #1\nhalt\n")
+        add("dup-same-line", f"l .break{sep}l halt\n")
+        add("dup-same-line", f"l .break{sep}l .break{sep}l halt\n")
+        add("dup-same-line", f"halt\nl .break{sep}l halt\nbr l\n")
+        add("dup-same-line", f"l .orig x4000{sep}l .break{sep}l halt\n")
+        add("dup-same-line", f"halt\nend_ .break{sep}end_ .break\n")
     for m in ("br", "ld r1", "lea r2", "st r3", "jsr"):
         add("case-only-ref", f"Lbl halt\n{m} lbl\n"); add("case-only-ref", f"{m} LBL\nlbl halt\n")
         add("case-only-ref", f"BUF .fill #1\nBuf .fill #2\n{m} buf\nhalt\n")
